@@ -344,8 +344,24 @@ def w(ctx, rep, prog):
                 writers.setdefault(root['id'], []).append(c)
     rep.analysed['W1:calls_scanned'] = n
     rep.floor('W1', 'functions using file-writing APIs', len(writers), 3)
+    # a private helper of an allowed writer is part of that writer: every call of it (anywhere in the program) comes from the
+    # region of an allowed writer — computed as a fixpoint, so helpers of helpers count too
+    def allowed_name(fn):
+        return any(fn == a or fn.endswith(a) for a in ALLOWED_WRITERS)
+    derived = set()
+    changed = True
+    while changed:
+        changed = False
+        for fn in writers:
+            if allowed_name(fn) or fn in derived:
+                continue
+            ks = [k for k, bd in prog.bodies.items() if bd['id'] == fn]
+            callers = [prog.bodies[prog.bodies[k2].get('root') or k2]['id'] for k2 in prog.bodies for kk in ks if kk in prog.edges.get(k2, ()) and (prog.bodies[k2].get('root') or k2) != kk]
+            if callers and all(allowed_name(c) or c in derived for c in callers):
+                derived.add(fn)
+                changed = True
     for fn, cs in sorted(writers.items()):
-        ok = any(fn == a or fn.endswith(a) for a in ALLOWED_WRITERS)
+        ok = allowed_name(fn) or fn in derived
         rep.check(ok, 'W1', f'writer:{fn}', f"{sorted({c['callee'].split('::')[-1] for c in cs})}", f"{fn} creates/writes files ({sorted({c['callee'] for c in cs})[:2]}): only check_write_file, Swift::write_codable_file and store_config may touch the file system — output written elsewhere bypasses the error gate and the compare-before-write discipline", {'file': cs[0]['file'], 'line': cs[0]['line']})
     # W2 — the error gate.  A *gate* is any function of the CLI crate that reads `ParsedData.errors` (rustc's field
     # resolution, not a name) and can return Err.  Required, inter-procedurally from generate_types:
